@@ -544,3 +544,74 @@ def raw_input_validated_first(ctx, rule='C08-R4'):
                    'AmpycloudError') if bad else '',
                   instance=f'{q.split(".")[-2]}.{q.split(".")[-1]}: the raw input is only passed along until validated')
     ctx.floor(rule, 'validation-order obligations', n, 3)
+
+
+# ------------------------------------------------------------------ C08-R6 / C20-R7: definite assignment
+def locals_bound_before_use(ctx, rule='C08-R6', scope='processing'):
+    """Every read of a local name is reached with the name bound (E9).  A read that is not raises
+    UnboundLocalError, which is neither a result nor an AmpycloudError.  Only reads left unbound on a path that
+    needs no loop to run zero times and no handler to be entered are violations; the others are information."""
+    from sa.definite import analyse
+    fx = effects(ctx)
+    p = ctx.project
+    from sa.definite_cases import run_cases, CASES
+    bad = run_cases(analyse)
+    if bad:
+        raise AnalysisError(rule, 'reference cases of the definite-assignment analysis fail: ' + '; '.join(bad[:3]))
+    ctx.floor(rule, 'reference cases of the definite-assignment analysis (positive and negative controls)', len(CASES), 20)
+    from sa.definite import unresolved_names, module_names
+    from sa.definite_cases import run_unresolved, UNRESOLVED
+    bad = run_unresolved(unresolved_names)
+    if bad:
+        raise AnalysisError(rule, 'reference cases of the unresolved-name analysis fail: ' + '; '.join(bad[:3]))
+    ctx.floor(rule, 'reference cases of the unresolved-name analysis', len(UNRESOLVED), 6)
+    if scope == 'processing':
+        funcs = fx.reachable(fx.processing_entries())
+    elif scope == 'params':
+        funcs = fx.reachable(['ampycloud.core.set_prms', 'ampycloud.core.reset_prms', 'ampycloud.dynamic.get_default_prms',
+                              'ampycloud.utils.utils.adjust_nested_dict', 'ampycloud.data.AbstractChunk.__init__'])
+    else:
+        funcs = {q for q in p.funcs if q.startswith('ampycloud.plots.')}
+        funcs |= fx.reachable(sorted(funcs))
+    modnames = {}
+
+    def names_of(mod):
+        if mod.name not in modnames:
+            stars, external = set(), False
+            for target in mod.star_imports:
+                tm = p.modules.get(target)
+                if tm is None:
+                    external = True
+                else:
+                    stars |= module_names(tm.tree)
+            modnames[mod.name] = None if external else module_names(mod.tree, stars)
+        return modnames[mod.name]
+    reads, nfun, info = 0, 0, []
+    for q in sorted(funcs):
+        f = p.funcs.get(q)
+        if f is None:
+            continue
+        nfun += 1
+        ctx.saw(f)
+        d = analyse(f.node)
+        reads += d.reads_checked
+        for x in d.findings:
+            loc = f'{f.module.relpath}:{x.node.lineno}'
+            if x.grade == 'unbound':
+                ctx.violation(rule, q, x.node, loc,
+                              f"local name '{x.name}' is read here but is not bound on every path that reaches the "
+                              'read (UnboundLocalError: neither a result nor an AmpycloudError)',
+                              instance=f'{q}: {x.name} bound before use')
+            else:
+                info.append(f"{q} @ {loc}: '{x.name}' is bound only if a loop body ran / no handler was entered")
+        # names no visible scope can bind (NameError): checked once per outermost function, nested ones included
+        if f.parent is None and names_of(f.module) is not None:
+            for nm in unresolved_names(f.node, set(), names_of(f.module)):
+                ctx.violation(rule, q, nm, f'{f.module.relpath}:{nm.lineno}',
+                              f"name '{nm.id}' is read here but nothing binds it: not a local, not a name of an enclosing "
+                              f'function, not a name of module {f.module.name}, not a builtin (NameError: neither a result nor an '
+                              'AmpycloudError)', instance=f'{q}: {nm.id} resolves')
+    lo = {'processing': (30, 300), 'params': (5, 30)}.get(scope, (15, 150))
+    ctx.floor(rule, f'functions analysed for definite assignment ({scope})', nfun, lo[0])
+    ctx.floor(rule, f'reads of local names checked ({scope})', reads, lo[1])
+    ctx.tables[f'{rule} loop-dependent bindings (information only)'] = info
